@@ -43,7 +43,11 @@ pub fn parse_line(line: &str) -> Option<grep::GrepLine> {
         None => {
             let value: Value = serde_json::from_str(line).ok()?;
             match &value["type"] {
-                Value::String(s) if s == "begin" || s == "end" || s == "summary" => {
+                // (such a record of rg has a "data" object; other JSON text is not rg output)
+                Value::String(s)
+                    if (s == "begin" || s == "end" || s == "summary")
+                        && value["data"].is_object() =>
+                {
                     Some(grep::GrepLine {
                         // ripgrep --json also emits these metadata lines at
                         // file boundaries. We emit nothing but signal that the
